@@ -564,12 +564,13 @@ class C14(Check):
                 ended.add(ev[2])
             elif ev[1] == 'transition':
                 if ev[2] is None:
-                    # the loop limit counts as an error inside the sequence (it ends it, as documented)
+                    # the loop limit counts as an error inside the sequence (it ends it, as documented) - when it is
+                    # the sequence itself which chained that many states in this cycle, not the run before it
                     ncalls = 0
                     for prev in reversed(trace[:i]):
-                        if prev[1] == 'cycle-begin':
+                        if prev[1] == 'cycle-begin' or (prev[1] == 'cleanup' and prev[3] == in_chain):
                             break
-                        if prev[1] in ('state', 'chainstate', 'cleanup'):
+                        if prev[1] == 'chainstate':
                             ncalls += 1
                     if in_chain is not None and in_chain not in ended and ncalls < shape['maxloops']:
                         res.append(Violation('C14.cleanup-interrupted', 'aborted',
